@@ -159,6 +159,13 @@ class PathTable:
             k = T._index(t.slice)
         except AnalysisError:
             return
+        cur = l.env[t.value.id]
+        if getattr(getattr(cur, "func", None), "__name__", "") == "dict" and getattr(k, "is_Symbol", False) and k.name.startswith("'"):
+            # a local dict filled key by key: model its entries (later stores replace earlier ones)
+            nm = "kv_" + k.name.strip("'")
+            kept = [a for a in cur.args if getattr(a.func, "__name__", "") != nm]
+            l.env[t.value.id] = sp.Function("dict")(*kept, sp.Function(nm)(v))
+            return
         if not (k.is_Integer and k >= 0):
             return
         cur = l.env[t.value.id]
